@@ -16,6 +16,8 @@
 //   P emitted <bytes hex> size=<getResponseSize>  | P rejected received=<bytes received>
 //   T <bytes hex>      Q <bytes hex> parsed=<what the real server handler saw>
 #include <pistache/client.h>
+
+#include <poll.h>
 #include <pistache/endpoint.h>
 #include <pistache/http.h>
 
@@ -252,6 +254,187 @@ static std::string handle(const std::string& line)
     Plan plan;
     g_plan    = &plan;
     plan.mode = t[0];
+    if (t[0] == "QT" && t.size() == 4)
+    {
+        // QT <body bytes> <client time-out ms> <mode>: a POST with a large body to a scripted raw server (4 kB receive buffer)
+        //   n  the server reads the head and nothing more: the send stays pending until the time-out; then a GET on the same client
+        //      to a second, well-behaved server socket must work                       -> QT first=R second=F
+        //   e  the server answers 200 as soon as it has the head, goes on reading and checks the body; the client issues a GET
+        //      when the answer arrives (body=1: what arrived of the body is the body)   -> QT first=F second=F body=1
+        //   s  the server reads the body slowly and never answers; 25 POSTs one after the other, each timing out while its send is
+        //      pending and the socket keeps becoming writable                           -> QT rounds=25 rejected=25
+        //   c  the server reads 100 kB, answers 413 and closes; a GET is queued behind the POST (one connection)
+        //                                                                               -> QT first=F second=F
+        size_t n        = static_cast<size_t>(atoll(t[1].c_str()));
+        int tmo         = atoi(t[2].c_str());
+        const char mode = t[3][0];
+        int lfd         = ::socket(AF_INET, SOCK_STREAM, 0);
+        int one         = 1;
+        setsockopt(lfd, SOL_SOCKET, SO_REUSEADDR, &one, sizeof one);
+        int small = 4096;
+        setsockopt(lfd, SOL_SOCKET, SO_RCVBUF, &small, sizeof small);
+        sockaddr_in a {};
+        a.sin_family      = AF_INET;
+        a.sin_addr.s_addr = htonl(INADDR_LOOPBACK);
+        ::bind(lfd, reinterpret_cast<sockaddr*>(&a), sizeof a);
+        ::listen(lfd, 16);
+        socklen_t al = sizeof a;
+        ::getsockname(lfd, reinterpret_cast<sockaddr*>(&a), &al);
+        int port = ntohs(a.sin_port);
+        std::atomic<bool> stop { false };
+        std::atomic<int> body_ok { -1 };
+        auto pat = [](size_t i) { return static_cast<char>('a' + (i * 7 + i / 4093) % 26); };
+        std::vector<std::thread> conns;
+        std::mutex cm;
+        std::thread acceptor([&] {
+            while (!stop.load())
+            {
+                pollfd p = { lfd, POLLIN, 0 };
+                if (::poll(&p, 1, 50) <= 0)
+                    continue;
+                int c = ::accept(lfd, nullptr, nullptr);
+                if (c < 0)
+                    continue;
+                std::lock_guard<std::mutex> g(cm);
+                conns.emplace_back([&, c] {
+                    std::string buf;
+                    // serve requests on this connection until it ends
+                    while (!stop.load())
+                    {
+                        bool eof = false;
+                        if (!pv::read_until(c, buf, [](const std::string& b) { return b.find("\r\n\r\n") != std::string::npos; }, 200, &eof))
+                        {
+                            if (eof)
+                                break;
+                            continue;
+                        }
+                        size_t he   = buf.find("\r\n\r\n") + 4;
+                        bool isPost = buf.compare(0, 4, "POST") == 0;
+                        if (!isPost)
+                        {
+                            buf.erase(0, he);
+                            pv::send_all(c, "HTTP/1.1 200 OK\r\nContent-Length: 2\r\n\r\nok");
+                            continue;
+                        }
+                        if (mode == 's')
+                        {
+                            // reads the body slowly (32 kB every 150 us) and never answers: the client's time-out fires while
+                            // its socket keeps becoming writable
+                            char tmp[32768];
+                            for (;;)
+                            {
+                                ssize_t k = ::recv(c, tmp, sizeof tmp, MSG_DONTWAIT);
+                                if (k == 0 || stop.load())
+                                    break;
+                                if (k < 0 && errno != EAGAIN && errno != EWOULDBLOCK)
+                                    break;
+                                std::this_thread::sleep_for(std::chrono::microseconds(150));
+                            }
+                            break;
+                        }
+                        if (mode == 'n')
+                        {
+                            // never read the body
+                            while (!stop.load())
+                                std::this_thread::sleep_for(std::chrono::milliseconds(20));
+                            break;
+                        }
+                        if (mode == 'c')
+                        {
+                            std::string more;
+                            pv::read_until(c, more, [](const std::string& b) { return b.size() >= 100000; }, 2000);
+                            pv::send_all(c, "HTTP/1.1 413 Request Entity Too Large\r\nContent-Length: 0\r\nConnection: close\r\n\r\n");
+                            ::shutdown(c, SHUT_WR);
+                            std::string rest;
+                            bool e2 = false;
+                            while (!e2 && !stop.load() && pv::read_until(c, rest, [](const std::string&) { return false; }, 100, &e2))
+                                rest.clear();
+                            break;
+                        }
+                        // mode e: answer early, then read and check the whole body
+                        pv::send_all(c, "HTTP/1.1 200 OK\r\nContent-Length: 5\r\n\r\nearly");
+                        std::string body = buf.substr(he);
+                        buf.clear();
+                        bool e3 = false;
+                        while (body.size() < n && !stop.load() && !e3)
+                            pv::read_until(c, body, [&](const std::string& b) { return b.size() >= n; }, 200, &e3);
+                        // the client may give the connection up once it has its answer: what did arrive of the body must be
+                        // the body (not the head of the next request in the middle of it)
+                        bool ok = true;
+                        for (size_t i = 0; i < std::min(n, body.size()) && ok; ++i)
+                            ok = body[i] == pat(i);
+                        body_ok = ok ? 1 : 0;
+                        if (body.size() > n)
+                            buf = body.substr(n);
+                    }
+                    ::close(c);
+                });
+            }
+        });
+        std::string body(n, ' ');
+        for (size_t i = 0; i < n; ++i)
+            body[i] = pat(i);
+        std::string r1 = "P", r2 = "P";
+        {
+            Http::Experimental::Client client;
+            client.init(Http::Experimental::Client::options().threads(1).maxConnectionsPerHost(1));
+            std::string base = "http://127.0.0.1:" + std::to_string(port);
+            std::atomic<int> s1 { 0 }, s2 { 0 };
+            auto second = [&] {
+                client.get(base + "/next").timeout(std::chrono::milliseconds(4000)).send().then([&](Http::Response) { s2 = 1; }, [&](std::exception_ptr) { s2 = 2; });
+            };
+            if (mode == 's')
+            {
+                int rejected = 0, rounds = 25;
+                for (int r = 0; r < rounds; ++r)
+                {
+                    std::atomic<int> st { 0 };
+                    client.post(base + "/big").body(body).timeout(std::chrono::milliseconds(tmo + r % 7)).send().then(
+                        [&](Http::Response) { st = 1; }, [&](std::exception_ptr) { st = 2; });
+                    for (int k = 0; k < 20000 && st.load() == 0; ++k)
+                        std::this_thread::sleep_for(std::chrono::microseconds(500));
+                    rejected += st.load() == 2;
+                }
+                stop = true;
+                client.shutdown();
+                acceptor.join();
+                {
+                    std::lock_guard<std::mutex> g(cm);
+                    for (auto& th : conns)
+                        th.join();
+                }
+                ::close(lfd);
+                return "QT rounds=" + std::to_string(rounds) + " rejected=" + std::to_string(rejected);
+            }
+            client.post(base + "/big").body(body).timeout(std::chrono::milliseconds(tmo)).send().then(
+                [&](Http::Response) { s1 = 1; if (mode == 'e') second(); },
+                [&](std::exception_ptr) { s1 = 2; if (mode == 'e') second(); });
+            if (mode == 'c')
+                second(); // queued behind the POST: one connection
+            for (int k = 0; k < 30000 && s1.load() == 0; ++k)
+                std::this_thread::sleep_for(std::chrono::microseconds(500));
+            if (mode == 'n')
+                second(); // after the time-out: a new connection
+            for (int k = 0; k < 30000 && s2.load() == 0; ++k)
+                std::this_thread::sleep_for(std::chrono::microseconds(500));
+            if (mode == 'e')
+                for (int k = 0; k < 10000 && body_ok.load() < 0; ++k)
+                    std::this_thread::sleep_for(std::chrono::microseconds(500));
+            r1 = s1.load() == 1 ? "F" : s1.load() == 2 ? "R" : "P";
+            r2 = s2.load() == 1 ? "F" : s2.load() == 2 ? "R" : "P";
+            stop = true;
+            client.shutdown();
+        }
+        stop = true;
+        acceptor.join();
+        {
+            std::lock_guard<std::mutex> g(cm);
+            for (auto& th : conns)
+                th.join();
+        }
+        ::close(lfd);
+        return "QT first=" + r1 + " second=" + r2 + (mode == 'e' ? std::string(" body=") + std::to_string(body_ok.load()) : std::string());
+    }
     if (t[0] == "QB" && (t.size() == 3 || t.size() == 4))
     {
         // (a fourth token: a small request goes first, so that the large one is sent on an established keep-alive connection)
